@@ -46,6 +46,9 @@ pub struct Printer {
     group_break_map: HashMap<GroupId, bool>,
     line_suffixes: Vec<Vec<DocIR>>,
     profile: PrinterProfile,
+    /// Kind of the last code token written and the output length right after it. Used to keep two
+    /// tokens that are printed without a separator from fusing into a different token.
+    last_token: Option<(emmylua_parser::LuaTokenKind, usize)>,
 }
 
 struct MeasuringPrinter {
@@ -78,6 +81,7 @@ impl Printer {
             group_break_map: HashMap::new(),
             line_suffixes: Vec::new(),
             profile: PrinterProfile::default(),
+            last_token: None,
         }
     }
 
@@ -109,23 +113,45 @@ impl Printer {
     fn print_doc(&mut self, doc: &DocIR, mode: PrintMode) {
         match doc {
             DocIR::Text(s) => {
+                // operators and keywords are sometimes emitted as plain text
+                self.separate_from_previous_token(emmylua_parser::LuaTokenKind::None, s);
                 self.push_text(s);
+                if s.chars().last().is_some_and(|c| !c.is_whitespace()) {
+                    self.last_token = Some((emmylua_parser::LuaTokenKind::None, self.output.len()));
+                }
             }
             DocIR::SourceNode { node, trim_end } => {
                 let text = node.text();
+                if let Some(first) = node.first_token() {
+                    self.separate_from_previous_token(first.kind().to_token(), first.text());
+                }
                 if *trim_end {
                     let end = syntax_text_trimmed_end(&text);
                     self.push_syntax_text(&text.slice(..end));
                 } else {
                     self.push_syntax_text(&text);
                 }
+                self.last_token = node
+                    .last_token()
+                    .map(|last| (last.kind().to_token(), self.output.len()));
             }
             DocIR::SourceToken(token) => {
+                let kind = token.kind().to_token();
+                // tokens of a comment are laid out by the comment renderer
+                let in_comment = token.parent_ancestors().any(|n| {
+                    n.kind() == emmylua_parser::LuaKind::Syntax(emmylua_parser::LuaSyntaxKind::Comment)
+                });
+                if !in_comment {
+                    self.separate_from_previous_token(kind, token.text());
+                }
                 self.push_text(token.text());
+                self.last_token = Some((kind, self.output.len()));
             }
             DocIR::SyntaxToken(kind) => {
                 if let Some(text) = kind.syntax_text() {
+                    self.separate_from_previous_token(*kind, text);
                     self.push_text(text);
+                    self.last_token = Some((*kind, self.output.len()));
                 }
             }
             DocIR::Space => {
@@ -206,6 +232,34 @@ impl Printer {
                 self.profile.align_group_count += 1;
                 self.print_align_group(&group.entries, mode);
             }
+        }
+    }
+
+    /// Writes a single space when `next` would otherwise be glued to the previously written token and
+    /// the two would lex as something else (`- -` -> comment, `1 ..` -> malformed number, `.. ...`,
+    /// `[ [[`, `> =`, `global function`, ...).
+    fn separate_from_previous_token(&mut self, next_kind: emmylua_parser::LuaTokenKind, next: &str) {
+        use emmylua_parser::LuaTokenKind as K;
+        let Some((prev_kind, end)) = self.last_token else {
+            return;
+        };
+        if end != self.output.len() || self.pending_indent_width.is_some() {
+            return;
+        }
+        let (Some(l), Some(r)) = (self.output.chars().last(), next.chars().next()) else {
+            return;
+        };
+        let wordy = |c: char| c.is_alphanumeric() || c == '_';
+        let is_number = |k: K| matches!(k, K::TkInt | K::TkFloat | K::TkComplex);
+        let fuses = (wordy(l) && wordy(r))
+            || (is_number(prev_kind) && r == '.')
+            || (l == '.' && (r == '.' || r.is_ascii_digit()))
+            || (l == '-' && r == '-')
+            || (l == '[' && (r == '[' || r == '='))
+            || (matches!(l, '<' | '>' | '=' | '~' | '/' | ':') && (r == '=' || r == l));
+        let _ = next_kind;
+        if fuses {
+            self.push_text(" ");
         }
     }
 
